@@ -95,7 +95,7 @@ def run_tlc(module, cfg=None, spec_dir=SPEC, workers=16, simulate=None, depth=No
             shutil.copy(p, tmp / p.name)
         for name, text in (generated or {}).items():
             (tmp / name).write_text(text)
-        cmd = ["java", f"-Xmx{heap}", "-XX:+UseParallelGC"]
+        cmd = ["java", f"-Xmx{heap}", "-Xss48m", "-XX:+UseParallelGC"]      # deep RECURSIVE operators (traces with hundreds of branches)
         if dfs:
             cmd.append("-Dtlc2.tool.queue.IStateQueue=StateDeque")
         cmd += ["-cp", TLA_JAR + ":" + community_cp(), "tlc2.TLC", "-workers", str(workers),
